@@ -241,24 +241,26 @@ package regclient
 //@   in ~
 //@   infunc imageSeenOrWait$
 //@   requires inserts-only-the-key-found-absent: update ==> k == caller.key && caller.seen == nil
-// and the key under which a blob passes the gate names the blob and where it goes, nothing else:
+// and the key under which a blob passes the gate names the blob and where it goes, nothing else
+// and nothing less (C03: a key that confuses two targets - e.g. two layouts, which have no registry
+// or repository - makes the copy skip a blob the second target lacks):
 // the target repository (the target reference without tag and digest) and the blob's digest - not
 // the descriptor's media type, annotations or the tag being copied, which differ between the parts
 // of an image that share the blob.
 //@ callsite imageSeenOrWait(ctx, opt, repo, tag, dig, parents)
-//@   prop C14
+//@   prop C14, C03
 //@   name imageSeenOrWait/blob-gate
 //@   in ~
 //@   infunc \)\.imageCopyBlob$
 //@   requires keyed-by-target-repository-and-digest-only: tag == "" && dig == caller.d.Digest && repo == $ret(CommonName, 0) && opt == caller.opt
 //@ callsite (~/types/ref.Ref).CommonName()
-//@   prop C14
+//@   prop C14, C03
 //@   name CommonName/blob-gate
 //@   in ~
 //@   infunc \)\.imageCopyBlob$
 //@   requires of-the-bare-target-repository: recv == $ret(SetTag, 0)
 //@ callsite (~/types/ref.Ref).SetTag(tag)
-//@   prop C14
+//@   prop C14, C03
 //@   name SetTag/blob-gate
 //@   in ~
 //@   infunc \)\.imageCopyBlob$
